@@ -523,6 +523,96 @@ func genPermCase(r *rand.Rand, idx int, thorough bool) *lpCase {
 	return c
 }
 
+// genAllPermCases: a fixed set of messages (2 or 3, two to three fragments each, at most maxFrames frames in total) and
+// one case per permutation of all their frames: every arrival order, not a sample.
+func genAllPermCases(r *rand.Rand, idx int, maxFrames int) []*lpCase {
+	mtu := []int{128, 256, 1500}[idx%3]
+	nmsg := 2 + idx%2
+	if maxFrames < 6 {
+		nmsg = 2
+	}
+	// 6-byte token, no mark, no incoming-face indication: one frame up to mtu-16 bytes, mtu-34 payload bytes per fragment
+	var sends []*lpOp
+	for m := 0; m < nmsg; m++ {
+		nf := 2
+		if m == 0 && nmsg == 2 && maxFrames >= 5 {
+			nf = 3
+		}
+		lo, hi := mtu-15, 2*(mtu-34)
+		if nf == 3 {
+			lo, hi = 2*(mtu-34)+1, 3*(mtu-34)
+		}
+		wire := mkData(r, lo+r.Intn(hi-lo+1))
+		tok := []byte{0, byte(m % 2), 9, 9, 9, byte(m)}
+		sends = append(sends, &lpOp{kind: "SEND", mtu: mtu, frag: true, ifi: false, seq: uint64(1<<64-2) + uint64(400*m), tok: tok, wire: wire})
+	}
+	// number of frames is known only after sending: probe once
+	probe := &lpCase{id: "probe", kind: "c10-allperm", nthreads: 2, reasm: true}
+	for _, o := range sends {
+		cp := *o
+		probe.ops = append(probe.ops, &cp)
+	}
+	var sink strings.Builder
+	pw := bufio.NewWriter(&sink)
+	runLpCase(pw, probe, r)
+	type ref struct{ m, i int }
+	var refs []ref
+	for m, o := range probe.ops {
+		for i := range o.frames {
+			refs = append(refs, ref{m, i})
+		}
+	}
+	if len(refs) > maxFrames || len(refs) < 2 {
+		return nil
+	}
+	var res []*lpCase
+	var perm func(k int)
+	cur := make([]ref, len(refs))
+	copy(cur, refs)
+	count := 0
+	perm = func(k int) {
+		if k == len(cur) {
+			order := make([]string, len(cur))
+			for i, x := range cur {
+				order[i] = fmt.Sprintf("%d.%d", x.m, x.i)
+			}
+			c := &lpCase{id: fmt.Sprintf("allperm%d-%d", idx, count), kind: "c10-perm", nthreads: 2, reasm: true}
+			count++
+			for _, o := range sends {
+				cp := *o
+				c.ops = append(c.ops, &cp)
+			}
+			c.after = func(c *lpCase, r *rand.Rand) []*lpOp {
+				var per [][][]byte
+				for _, o := range c.ops {
+					if o.kind == "SEND" {
+						per = append(per, o.frames)
+					}
+				}
+				var out []*lpOp
+				for _, it := range order {
+					var m, i int
+					fmt.Sscanf(it, "%d.%d", &m, &i)
+					if m < len(per) && i < len(per[m]) {
+						out = append(out, &lpOp{kind: "RECV", frame: per[m][i]})
+						c.order = append(c.order, it)
+					}
+				}
+				return out
+			}
+			res = append(res, c)
+			return
+		}
+		for j := k; j < len(cur); j++ {
+			cur[k], cur[j] = cur[j], cur[k]
+			perm(k + 1)
+			cur[k], cur[j] = cur[j], cur[k]
+		}
+	}
+	perm(0)
+	return res
+}
+
 // genSweepCase: frame lengths for a range of packet sizes (pattern payload, send side only).
 func genSweepCase(r *rand.Rand, idx int, mtu int, sizes []int) *lpCase {
 	c := &lpCase{id: fmt.Sprintf("sweep%d", idx), kind: "c10-sweep", nthreads: 1, reasm: true}
@@ -874,6 +964,16 @@ func TestLpTrace(t *testing.T) {
 		}
 		for i := 0; i < nperm; i++ {
 			cases = append(cases, genPermCase(r, i, thorough))
+		}
+		// every permutation of the frames of a small set of messages
+		if nperm > 0 {
+			if thorough {
+				for i := 0; i < 6; i++ {
+					cases = append(cases, genAllPermCases(r, i, 6)...)
+				}
+			} else {
+				cases = append(cases, genAllPermCases(r, 0, 4)...)
+			}
 		}
 		switch sweep {
 		case "quick": // sizes around every boundary for the five MTUs
